@@ -1100,7 +1100,7 @@ impl Group for C04 {
          scripts go to the real phase 1; a case is non-trivial when phase 2 and phase-1(canon) accept a content with at least one HTLC \
          and at least one mutation is refused"
     }
-    fn budget(&self, tier: Tier) -> usize { if tier == Tier::Quick { 500 } else { 6000 } }
+    fn budget(&self, tier: Tier) -> usize { if tier == Tier::Quick { 700 } else { 6000 } }
     fn model_line(&self, op: &str) -> Option<String> {
         if op.starts_with("impl ") || op.starts_with("p1raw ") || op == "p1retry" || op == "p2next" || op.starts_with("htlcraw ") { None } else { Some(op.to_string()) }
     }
